@@ -249,6 +249,27 @@ func workerC12(thorough bool, shard, nshards int) {
 			mk("three maps, first and last equal", []any{map[string]any{"a": 1.0, "b": 2.0}, map[string]any{"a": 2.0, "b": 1.0}, map[string]int{"b": 2, "a": 1}}),
 			mk("maps with 5 keys (menu orders)", []any{map[string]any{"a": 1.0, "b": 2.0, "c": 3.0, "d": 4.0, "e": 5.0}, map[string]int{"e": 5, "d": 4, "c": 3, "b": 2, "a": 1}, map[string]any{"a": 1.0, "b": 2.0, "c": 3.0, "d": 4.0, "e": 6.0}}),
 		}
+		// wide objects (9 and 12 members): the two equal ones must be found whatever order each map is walked in
+		wide := func(n int, typed bool, last float64) any {
+			if typed {
+				m := map[gen.MyKey]float64{}
+				for k := 0; k < n; k++ {
+					m[gen.MyKey(fmt.Sprintf("k%02d", k))] = float64(k)
+				}
+				m[gen.MyKey(fmt.Sprintf("k%02d", n-1))] = last
+				return m
+			}
+			m := map[string]any{}
+			for k := n - 1; k >= 0; k-- {
+				m[fmt.Sprintf("k%02d", k)] = float64(k)
+			}
+			m[fmt.Sprintf("k%02d", n-1)] = last
+			return m
+		}
+		subs = append(subs,
+			mk("two equal 9-member maps", []any{wide(9, false, 8), wide(9, true, 8)}),
+			mk("two equal 12-member maps after an unequal one", []any{wide(12, false, 99), wide(12, false, 11), wide(12, true, 11)}),
+			mk("two 9-member maps differing in the last member", []any{wide(9, false, 8), wide(9, true, 7)}))
 		ow := exploreSubjects(subs, shard, nshards, true)
 		// expected verdicts of the default executions
 		w.Executions += ow.Executions
@@ -262,7 +283,7 @@ func workerC12(thorough bool, shard, nshards int) {
 		w.Bound = 3
 		w.Extra["order_x_hash_subjects"] = len(subs)
 		if shard == 0 {
-			for i, want := range []bool{false, true, false, false, false} {
+			for i, want := range []bool{false, true, false, false, false, false, false, true} {
 				jsonschema.VerifResetLazyGlobals()
 				if got := subs[i].run(); got != fmt.Sprint(want) {
 					w.Failures = append(w.Failures, envrun.Failure{Key: subs[i].desc + " [default orders]", What: "want valid=" + fmt.Sprint(want) + ", got " + got})
